@@ -91,10 +91,9 @@ class VfsRequest(request.SmartServerRequest):
         """
         x = request.SmartServerRequest.translate_client_path(self, relpath)
         result = str(urlutils.unescape(x))
-        lowered = result.lower()
-        if "%2f" in lowered or "%5c" in lowered:
-            # A doubly encoded path separator: the transports underneath
-            # would decode it into a real one.
+        if request.unsafe_client_path(result):
+            # A doubly encoded path separator or control character: the
+            # transports underneath would decode it.
             raise transport_errors.PathNotChild(result, self._root_client_path)
         return result
 
